@@ -90,6 +90,8 @@ def request_st(draw, spec):
 @st.composite
 def case_st(draw, with_fault=True):
     spec = draw(fsgen.tree_spec(max_nodes=8))
+    # named pipes are not among the layouts this property quantifies over (regular files, directories, symlinks)
+    spec["nodes"] = [nd for nd in spec["nodes"] if nd["t"] != "fifo"]
     if draw(st.integers(0, 2)) == 0:
         # a link inside the upload directory that leads to a directory outside of it
         spec["nodes"].append({"p": ROOT + "/" + draw(st.sampled_from(["shared", "sub-link", "x-out"])), "t": "link",
@@ -373,7 +375,7 @@ LANES = [
          shards={"quick": 16, "thorough": 16}, nontrivial=lambda c, v: True, labels=_labels, bucket=_bucket, exhaustive=True,
          rule="exhaustive precondition matrix (tokens x token x media types x media type x delete x size x target) on a tree "
               "with look-alike siblings (<target>.tmp, .<target>.tmp, ~, .bak, .part)"),
-    Lane(name="uploads", run_case=run_case, strategy=case_st, budget={"quick": 6400, "thorough": 160000},
+    Lane(name="uploads", wall_limit=30.0, run_case=run_case, strategy=case_st, budget={"quick": 6400, "thorough": 160000},
          shards={"quick": 16, "thorough": 64}, nontrivial=_nontrivial, labels=_labels, bucket=_bucket,
          rule="generated tree x configuration x request x optional fault; snapshot diff oracle"),
     Lane(name="fault-points", run_case=run_case, enumerate=enum_faults, budget={"quick": 1, "thorough": 1},
